@@ -469,11 +469,7 @@ func (db *DB) setEntry(data *kv.Entry) error {
 
 	// Delegate to the commit pipeline to leverage batching and VLog offloading.
 	data.IncrRef()
-	if err := db.batchSet([]*kv.Entry{data}); err != nil {
-		data.DecrRef()
-		return err
-	}
-	return nil
+	return db.batchSetRef([]*kv.Entry{data})
 }
 
 // SetVersionedEntry writes a value to the specified column family using the
@@ -498,11 +494,7 @@ func (db *DB) SetVersionedEntry(cf kv.ColumnFamily, key []byte, version uint64, 
 
 	// Delegate to the commit pipeline to leverage batching and VLog offloading.
 	entry.IncrRef()
-	if err := db.batchSet([]*kv.Entry{entry}); err != nil {
-		entry.DecrRef()
-		return err
-	}
-	return nil
+	return db.batchSetRef([]*kv.Entry{entry})
 }
 
 // DeleteVersionedEntry marks the specified version as deleted by writing a
